@@ -169,7 +169,17 @@ func (x *rExchange) full() string {
 	return sb.String()
 }
 
+// rPayload is the unique payload of (sender, recipient, full id). One in eight is
+// the empty payload (a bare acknowledgement or barrier message is legal): it is
+// still a message, must be delivered, absorbed when retransmitted and reported
+// when contradicted like any other.
 func rPayload(from, to sim.ID, full string, pad int) []byte {
+	switch harness.HashU64("empty-payload", fmt.Sprint(from), fmt.Sprint(to), full) % 16 {
+	case 0:
+		return nil // travels as CBOR null
+	case 8:
+		return []byte{} // travels as an empty byte string
+	}
 	return []byte(fmt.Sprintf("P|%d>%d|%s|%s", from, to, full, strings.Repeat("x", pad)))
 }
 
